@@ -11,8 +11,11 @@ quantifier (no symbolic engine: different technique family).
 """
 from __future__ import annotations
 
+import collections
+import contextlib
 import copy
 import math
+import types
 
 import numpy as np
 
@@ -37,7 +40,16 @@ RULE = (
     "DirectPtychography object built from a synthesised virtual bright-field stack), DirectPtychography histories "
     "(edits of returned/passed dictionaries, rotation-only grid search followed by a second search / a fixed-override "
     "search / a fit, each followed by a read-back and a reconstruct twin against a fresh instance), and the defocus alias "
-    "and a canonical coefficient carried by every accepted numeric form (42 forms x 7 entry points). Every coefficient set is evaluated at 200 (quick) / 1000 (thorough) "
+    "and a canonical coefficient carried by every accepted numeric form (42 forms x 7 entry points). Widening families: "
+    "dense sets at amplitudes 1e-8 / 1e+8, alias and fit values scaled by 1e-8..1e+8; big grids (2**20..2**22 float64 points, "
+    "C and Fortran order, and the library's float32 k-grid up to 2048x1536 with rotation) judged on a strided sub-sample and "
+    "on rows against a small twin; alpha/phi/shift/mask arguments in Fortran, strided, row-strided, expanded and "
+    "NumPy-backed (incl. read-only) layouts, float32 and float64, vs a contiguous copy; a fixed bundle of all C12 "
+    "computations under 10 process-global states vs the default state; one coefficient set in 9 equivalent spellings "
+    "(key order, alias names, OrderedDict, numpy / tensor / mixed value types, flat / nested / split probe_params) at 9 "
+    "entry points, mapping types for the surface functions, outputs fed back as inputs; random points of the "
+    "reconstruct option cross product in the alias twins; neutral reads / reprs / copies between the steps of the "
+    "DirectPtychography histories. Every coefficient set is evaluated at 200 (quick) / 1000 (thorough) "
     "random (alpha, phi) points plus axis points. Non-trivial = alpha>0 and at least one non-zero coefficient (alias: "
     "defocus != 0; fit: C10 != 0); distinct = (kind, symbol/label or coefficient-set id, scale)"
 )
@@ -49,6 +61,9 @@ ASSUMPTIONS = [
     "fit domain: |rotation| < pi/2 - 0.05, |C10| >= 20 A, 0 <= C12 <= 0.8 |C10| (the polar decomposition cannot identify a rotation for an indefinite aberration matrix), >= 5 bright-field pixels spanning both axes; phi12 is judged through (C12 cos 2phi12, C12 sin 2phi12), i.e. modulo pi and ignored when C12 = 0; bound 1e-4 relative (float32 internals, measured ~3e-7)",
     "end-to-end fit (fit_hyperparameters_cross_correlation on a stack synthesised by Fourier-translating one band-limited image by the predicted shifts, bin_factors=(2,1), default upsample 4): max shift 1.2-2.3 px, C12 <= 0.3 |C10|, |rotation| <= 1.2; accuracy is limited by the 1/4 px shift quantisation: measured floor over 330 scenes on the unchanged tree 2.8e-2 (coefficients, relative to |C10|) and 1.2e-2 rad; bounds 0.15 and 0.1 rad (a fit that measures only a residual is off by ~1); repeated fits with identical arguments are bit-identical on the unchanged tree and are judged at 0.1 / 0.05 rad (two fits within the floor of the truth differ by at most twice the floor)",
     "alias inputs never give both 'defocus' and 'C10' (contradictory input)",
+    "process-global states (torch default dtype float64, no_grad, inference_mode, grad disabled, deterministic algorithms, float32 matmul precision 'medium', 3 torch threads, numpy errstate raise, numpy/torch print options, quantem config dtype_real/complex = float64/complex128) are applied around a fixed bundle and restored; expected = default-state result at 1e-12 (float64 identities), 1e-5 (probe, lateral shifts), 1e-4 (fit, reconstruct)",
+    "layouts: torch tensors only (the functions call tensor methods; NumPy arrays raise on the unchanged tree); NumPy-backed tensors incl. read-only memory are generated; coefficient values of the surface functions are float | np.float64 | 0-d tensor (0-d ndarrays raise TypeError in aberration_surface on the unchanged tree and are only passed to the alias entry points, which apply float())",
+    "big grids: the 25-label basis is evaluated for 5 labels only (memory); sub-sample of 600 points and 3 rows are judged",
     "numeric forms of coefficient values: every scalar-like form all entry points accept on the unchanged tree (Python int/float, numpy float16/32/64 and (u)int8..64 scalars, 0-d arrays, array elements, 0-d torch tensors and tensor elements of float/int/uint8 dtypes); 1-element 1-D numpy arrays raise TypeError on the unchanged tree and are outside the domain; integer values up to 2**40 in magnitude (exact in float64)",
     "direct_history: only values returned by accessors (aberration_coefs, current_aberrations) and the dictionary passed to the constructor are edited by the harness; the public dataclass fields of HyperparameterState are state, not copies, and are not edited; after a cross-correlation fit the fitted symbols C10/C12/phi12 are not judged",
     "standardize_aberration_coefs returns float32 tensors: coefficient values judged at 1e-5 relative (float32 rounding 6e-8); the surface of float32-rounded coefficients at 5e-5 of the sum of term magnitudes (rounded angles enter as m*dphi, hard limit 1.1e-6, measured 1.7e-7; a sign error of the alias is >= 1e-2)",
@@ -70,6 +85,12 @@ REQUIRED_COUNTERS = [
     "eval:coefficients_survive_history",
     "eval:history_reconstruct_twin",
     "eval:alias_entry_points_agree",
+    "eval:layout_changes_result",
+    "eval:global_state_changes_result",
+    "eval:equivalent_forms_disagree",
+    "eval:feedback_not_fixed_point",
+    "eval:big_grid_rows_vs_small_twin",
+    "eval:k_grid_vs_fftfreq",
 ]
 EXHAUSTIVE = {"quick": False, "thorough": False}
 
@@ -100,7 +121,7 @@ def plan(tier, seed):
             for r in range(4 if q else 80):
                 specs.append({"kind": "onehot_cart", "label": lab, "scale": scale, "rep": r})
     for r in range(500 if q else 90000):
-        specs.append({"kind": "dense", "scale": SCALES[r % 2], "rep": r})
+        specs.append({"kind": "dense", "scale": (SCALES + ["tiny", "huge"])[r % 4], "rep": r})
     for r in range(200 if q else 8000):
         specs.append({"kind": "alias_fn", "rep": r})
     for r in range(100 if q else 3000):
@@ -113,6 +134,16 @@ def plan(tier, seed):
         specs.append({"kind": "fit_e2e", "rep": r})
     for r in range(30 if q else 420):
         specs.append({"kind": "direct_history", "rep": r})
+    for r in range(10 if q else 200):
+        specs.append({"kind": "layout", "rep": r})
+    for r in range(2 if q else 12):
+        specs.append({"kind": "big_grid", "family": "points64", "rep": r})
+        specs.append({"kind": "big_grid", "family": "kgrid32", "rep": r})
+    for j, name in enumerate(STATES):
+        for r in range(1 if q else 10):
+            specs.append({"kind": "global_state", "state": name, "rep": r})
+    for r in range(12 if q else 300):
+        specs.append({"kind": "equiv_forms", "rep": r})
     for form in FORMS:
         for r in range(3 if q else 60):
             specs.append({"kind": "alias_forms", "form": form, "rep": r})
@@ -220,7 +251,7 @@ def polar_to_cart_np(pol):
 
 
 def _wavelength(rng, scale):
-    if scale == "unit":
+    if scale in ("unit", "tiny", "huge"):
         return float(rng.uniform(0.5, 2.0))
     return _lambda(float(rng.uniform(30e3, 300e3)))
 
@@ -233,11 +264,15 @@ def _lambda(energy_ev):
 def _coef_mag(rng, scale, n):
     if scale == "unit":
         return float(rng.uniform(0.2, 2.0))
+    if scale == "tiny":  # amplitudes of 1e-8 and 1e+8: every judgement is relative to the term magnitudes
+        return float(rng.uniform(0.2, 2.0)) * 1e-8
+    if scale == "huge":
+        return float(rng.uniform(0.2, 2.0)) * 1e8
     return float(10 ** rng.uniform(1.0, 2.5) * 30.0 ** (n - 1))  # ~ order-appropriate Angstrom magnitudes
 
 
 def _points(rng, scale, npts):
-    amax = 1.5 if scale == "unit" else 0.035
+    amax = 1.5 if scale in ("unit", "tiny", "huge") else 0.035
     alpha = rng.uniform(0.03, 1.0, npts) * amax
     phi = rng.uniform(-PI, PI, npts)
     # axis/diagonal directions and the branch cut of atan2
@@ -486,6 +521,8 @@ def _alias_input(rng, allow_none=True):
     """a user dictionary holding 'defocus' (never together with C10), other symbols/aliases, some None.
     Returns (user dict, expected canonical dict, defocus)."""
     d = float(rng.choice([-1.0, 1.0])) * float(10 ** rng.uniform(0, 3.5))
+    if rng.random() < 0.1:
+        d *= float(rng.choice([1e-8, 1e8]))  # scale family
     if rng.random() < 0.2:
         d = int(round(d)) or 7
     inv = {v: k for k, v in ALIASES.items() if k != "defocus"}
@@ -652,12 +689,14 @@ def run_alias_direct(spec, idx, ctx):
     cur = dp.hyperparameter_state.current_aberrations({"defocus": d2})
     ctx.check(cur.get("C10") == -d2, "alias_defocus", lambda: "current_aberrations(override {'defocus': %r}) = %r" % (d2, cur), **{**f, "form": "override"})
     # twin reconstructions: override by alias == override by C10 = -defocus, through the real pipeline
-    kernel = str(rng.choice(["ssb", "prlx", "icom"]))
+    kernel = str(rng.choice(["ssb", "prlx", "icom", "obf", "mf"]))
+    # several common options together (random point of the cross product)
+    opts = {"upsampling_factor": [None, 2][int(rng.integers(2))], "max_batch_size": [None, 7][int(rng.integers(2))], "q_lowpass": [None, 0.8][int(rng.integers(2))], "q_highpass": [None, 0.05][int(rng.integers(2))], "parallax_flip_phase": bool(rng.integers(2))}
     st["captured"].clear()
-    a = dp.reconstruct(override_aberration_coefs={"defocus": d2}, deconvolution_kernel=kernel, verbose=False).corrected_stack.clone()
+    a = dp.reconstruct(override_aberration_coefs={"defocus": d2}, deconvolution_kernel=kernel, verbose=False, **opts).corrected_stack.clone()
     cap = list(st["captured"])
-    b = dp.reconstruct(override_aberration_coefs={"C10": -d2}, deconvolution_kernel=kernel, verbose=False).corrected_stack.clone()
-    w = dp.reconstruct(override_aberration_coefs={"C10": d2}, deconvolution_kernel=kernel, verbose=False).corrected_stack.clone()
+    b = dp.reconstruct(override_aberration_coefs={"C10": -d2}, deconvolution_kernel=kernel, verbose=False, **opts).corrected_stack.clone()
+    w = dp.reconstruct(override_aberration_coefs={"C10": d2}, deconvolution_kernel=kernel, verbose=False, **opts).corrected_stack.clone()
     scale = float(b.abs().max()) or 1.0
     ctx.close(float((a - b).abs().max()) / scale, 1e-5, "alias_reconstruct_twin", lambda: "reconstruct(override defocus=%r) differs from reconstruct(override C10=%r), kernel %s" % (d2, -d2, kernel), **{**f, "form": "reconstruct", "kernel": kernel})
     if cap and isinstance(cap[0], dict):
@@ -699,6 +738,24 @@ def run_direct_history(spec, idx, ctx):
             dct.pop("C12", None)
             dct["C50"] = -7.0e6
             dct["defocus"] = 99.0
+
+    def neutral():
+        """reads / copies / reprs between the steps: neutral on the unchanged tree"""
+        hs_ = dp.hyperparameter_state
+        repr(hs_), str(dp.rotation_angle), dp.aberration_coefs, dp.semiangle_cutoff, dp.device
+        for which in ("initial", "optimized", "current", "all"):
+            hs_.summarize(which=which) if hasattr(hs_, "summarize") else None
+        hs_.copy() if hasattr(hs_, "copy") else None
+        copy.deepcopy(hs_)
+        if getattr(dp, "corrected_stack", None) is not None:
+            dp.variance_loss(), dp.corrected_bf, dp.obj
+
+    _state_ok = state_ok
+
+    def state_ok(step, extra=None):  # noqa: F811
+        if spec["rep"] % 2:
+            neutral()
+        _state_ok(step, extra)
 
     state_ok("construction")
     # (a) returned / passed dictionaries are the caller's: editing them must not edit the model
@@ -835,6 +892,392 @@ def run_alias_forms(spec, idx, ctx):
     ctx.observe(form=form, value=repr(v), expected_C10=want, results=results)
 
 
+# ---- proactive widening: size, layout, process-global state, equivalent forms, feedback -----------------
+
+
+def _layout(torch, x, form):
+    """the same values in a different memory layout"""
+    if form == "contiguous":
+        return x.contiguous()
+    if form == "fortran":
+        return x.transpose(-1, -2).contiguous().transpose(-1, -2)
+    if form == "strided":
+        big = torch.zeros(tuple(x.shape[:-1]) + (2 * x.shape[-1],), dtype=x.dtype)
+        big[..., ::2] = x
+        return big[..., ::2]
+    if form == "rowstrided":
+        big = torch.zeros((3 * x.shape[0],) + tuple(x.shape[1:]), dtype=x.dtype)
+        big[1::3] = x
+        return big[1::3]
+    if form == "from_numpy":
+        return torch.from_numpy(np.asfortranarray(x.numpy()))  # a view of (Fortran-ordered) NumPy memory
+    if form == "readonly_numpy":
+        a = x.numpy().copy()
+        t = torch.from_numpy(a)
+        a.setflags(write=False)
+        return t
+    raise HarnessError(form)
+
+
+LAYOUTS = ["fortran", "strided", "rowstrided", "from_numpy", "readonly_numpy"]
+
+
+def run_layout(spec, idx, ctx):
+    st = ctx.state
+    torch, cp, du = st["torch"], st["cp"], st["du"]
+    rng = ctx.rng(idx)
+    form = LAYOUTS[spec["rep"] % len(LAYOUTS)]
+    dt = [torch.float64, torch.float32][(spec["rep"] // len(LAYOUTS)) % 2]
+    shape = (int(rng.integers(5, 20)), int(rng.integers(5, 20)))
+    pol = _dense_polar(rng, "physical")
+    lam = _wavelength(rng, "physical")
+    alpha, phi = _points(rng, "physical", shape[0] * shape[1])
+    A0 = torch.tensor(alpha.reshape(shape), dtype=dt)
+    P0 = torch.tensor(phi.reshape(shape), dtype=dt)
+    f = {"kind": "layout", "layout": form, "dtype": str(dt).split(".")[-1]}
+    tol = 1e-13 if dt == torch.float64 else 1e-5
+    A, P = _layout(torch, A0, form), _layout(torch, P0, form)
+    variants = [("both", A, P), ("alpha_only", A, P0), ("expanded_phi", A, P0[:1, :1].expand(shape))]
+    for vname, a_, p_ in variants:
+        pc = p_.contiguous()
+        for name, fn in (
+            ("aberration_surface", lambda a, p: cp.aberration_surface(a, p, lam, pol)),
+            ("polar_gradients", lambda a, p: torch.stack(cp.aberration_surface_polar_gradients(a, p, pol))),
+            ("cartesian_gradients", lambda a, p: torch.stack(cp.aberration_surface_cartesian_gradients(a, p, pol))),
+            ("cartesian_basis", lambda a, p: cp.aberration_surface_cartesian_basis(a, p, lam, CART[:9])),
+        ):
+            got, ref = fn(a_, p_), fn(A0, pc)
+            sc = float(ref.abs().max()) or 1.0
+            ctx.close(float((got - ref).abs().max()) / sc, tol, "layout_changes_result", lambda: "%s on %s (%s, %s) input differs from the result for a contiguous copy" % (name, form, vname, dt), function=name, variant=vname, **f)
+    # the float64 reference as well (values, not only self-consistency)
+    ref64, S = chi_polar_np(A0.double().numpy(), P0.double().numpy(), lam, pol)
+    got = cp.aberration_surface(A, P, lam, pol).double().numpy()
+    ctx.close(_rel(got - ref64, S), 1e-11 if dt == torch.float64 else 3e-5, "surface_vs_series", lambda: "aberration_surface on %s input differs from the series" % form, **f)
+    # fit: shifts / mask in other layouts, grid sizes and samplings as lists / numpy scalars
+    dp, nbf, gpts, ks = _make_dp(ctx, rng, {}, rotation=0.0, scan=(4, 4))
+    c10 = float(rng.choice([-1.0, 1.0])) * float(rng.uniform(50, 800))
+    coefs = {"C10": c10, "C12": 0.3 * abs(c10), "phi12": float(rng.uniform(-1.5, 1.5))}
+    rot = float(rng.uniform(-1.2, 1.2))
+    sh = dp._return_lateral_shifts(rot, coefs, dp.bf_mask) if hasattr(dp, "_return_lateral_shifts") else None
+    if sh is not None:
+        ref = du.fit_aberrations_from_shifts(sh.contiguous(), dp.bf_mask, dp.wavelength, dp.gpts, dp.sampling)
+        wide = torch.zeros((sh.shape[0], 4), dtype=sh.dtype)
+        wide[:, ::2] = sh
+        mask_nc = _layout(torch, dp.bf_mask.to(torch.uint8), "fortran").bool() if dp.bf_mask.ndim == 2 else dp.bf_mask
+        mask_nc = dp.bf_mask.t().contiguous().t()
+        got = du.fit_aberrations_from_shifts(wide[:, ::2], mask_nc, np.float64(dp.wavelength), [int(g) for g in dp.gpts], [np.float64(x) for x in dp.sampling])
+        sc = max(abs(c10), 1.0)
+        err = max(abs(got["C10"] - ref["C10"]) / sc, abs(got["C12"] - ref["C12"]) / sc, abs(got["rotation_angle"] - ref["rotation_angle"]), abs(got["phi12"] - ref["phi12"]))
+        ctx.close(err, 1e-4, "layout_changes_result", lambda: "fit_aberrations_from_shifts on strided shifts / Fortran mask / list arguments: %r vs %r" % (got, ref), function="fit_aberrations_from_shifts", variant="strided", **f)
+    ctx.nontrivial(("layout", form, str(dt), spec["rep"]), True)
+    ctx.observe(layout=form, dtype=str(dt), shape=shape, coefs=pol)
+
+
+def run_big_grid(spec, idx, ctx):
+    """arrays far larger than the random draws (2**20 .. 2**22 points): a strided sub-sample must agree with the series,
+    and whole rows must agree with the same rows evaluated on their own"""
+    st = ctx.state
+    torch, cp = st["torch"], st["cp"]
+    rng = ctx.rng(idx)
+    r = spec["rep"]
+    f = {"kind": "big_grid", "family": spec["family"]}
+    pol = _dense_polar(rng, "physical")
+    if spec["family"] == "points64":
+        shape = [(1024, 1024), (2048, 1031), (4096, 1024), (1 << 21, 1)][r % 4]
+        n = shape[0] * shape[1]
+        lam = _wavelength(rng, "physical")
+        g = torch.Generator().manual_seed(int(rng.integers(1 << 30)))
+        A = torch.rand(shape, dtype=torch.float64, generator=g) * 0.034 + 0.001
+        P = (torch.rand(shape, dtype=torch.float64, generator=g) * 2 - 1) * PI
+        if r % 2:
+            A, P = A.t().contiguous().t(), P.t().contiguous().t()  # Fortran order
+        chi = cp.aberration_surface(A, P, lam, pol)
+        dk, dphi = cp.aberration_surface_polar_gradients(A, P, pol)
+        idxs = torch.arange(0, n, 4099)[:600]
+        a_s, p_s = A.reshape(-1)[idxs].numpy(), P.reshape(-1)[idxs].numpy()
+        ref, S = chi_polar_np(a_s, p_s, lam, pol)
+        ctx.close(_rel(chi.reshape(-1)[idxs].numpy() - ref, S), TOL, "surface_vs_series", lambda: "big grid %s: sampled points differ from the series" % (shape,), n_points=n, **f)
+        gr, gp, G = grad_polar_np(a_s, p_s, pol)
+        ctx.close(max(_rel(dk.reshape(-1)[idxs].numpy() - gr, G), _rel(dphi.reshape(-1)[idxs].numpy() - gp, G)), TOL, "polar_gradient_vs_series", lambda: "big grid %s: sampled gradient differs" % (shape,), n_points=n, **f)
+        rows = [0, shape[0] // 2, shape[0] - 1]
+        sub = cp.aberration_surface(A[rows].contiguous(), P[rows].contiguous(), lam, pol)
+        ctx.close(float((chi[rows] - sub).abs().max()) / (float(sub.abs().max()) or 1.0), 1e-13, "big_grid_rows_vs_small_twin", lambda: "rows of the big evaluation differ from the same rows evaluated alone", n_points=n, **f)
+        labs = CART[:3] + CART[-2:]
+        B = cp.aberration_surface_cartesian_basis(A, P, lam, labs)
+        for j, lab in enumerate(labs):
+            rj, Sj = chi_cart_np(a_s, p_s, lam, {lab: 1.0})
+            ctx.close(_rel(B.reshape(-1, len(labs))[idxs, j].numpy() - rj, Sj), TOL, "cartesian_basis_function", lambda: "big grid: basis %s differs" % lab, n_points=n, **f)
+        ctx.check(tuple(chi.shape) == tuple(shape) and bool(torch.isfinite(chi).all()), "big_grid_finite", "non-finite values or shape %s on the big grid" % (tuple(chi.shape),), n_points=n, **f)
+    else:  # the library's own float32 k-grid at a large detector size, with rotation
+        gpts = [(1024, 1024), (2048, 1536), (3000, 701)][r % 3]
+        samp = (float(rng.uniform(0.05, 0.3)), float(rng.uniform(0.05, 0.3)))
+        rot = [None, float(rng.uniform(-3, 3))][r % 2]
+        lam = _lambda(float(rng.choice([80e3, 300e3])))
+        kx, ky = cp.spatial_frequencies(gpts, samp, rotation_angle=rot)
+        fx = np.fft.fftfreq(gpts[0], samp[0])[:, None] * np.ones((1, gpts[1]))
+        fy = np.fft.fftfreq(gpts[1], samp[1])[None, :] * np.ones((gpts[0], 1))
+        if rot is not None:
+            fx, fy = fx * math.cos(rot) - fy * math.sin(rot), fx * math.sin(rot) + fy * math.cos(rot)
+        kmax = float(np.hypot(fx, fy).max())
+        n = gpts[0] * gpts[1]
+        ctx.close(max(float(np.abs(kx.numpy() - fx).max()), float(np.abs(ky.numpy() - fy).max())) / kmax, 1e-6, "k_grid_vs_fftfreq", lambda: "spatial_frequencies%r rotation %r differs from fftfreq" % (gpts, rot), n_points=n, **f)
+        k, phi = cp.polar_coordinates(kx, ky)
+        alpha = k * lam
+        small = alpha <= 0.04
+        chi = cp.aberration_surface(alpha, phi, lam, pol)
+        idxs = torch.nonzero(small.reshape(-1))[:, 0][:: max(1, int(small.sum()) // 500)][:600]
+        a_s, p_s = alpha.reshape(-1)[idxs].double().numpy(), phi.reshape(-1)[idxs].double().numpy()
+        ref, S = chi_polar_np(a_s, p_s, lam, pol)
+        ctx.close(_rel(chi.reshape(-1)[idxs].double().numpy() - ref, S), 3e-5, "surface_vs_series", lambda: "float32 k-grid %r: sampled points differ from the series" % (gpts,), n_points=n, **f)
+        dx, dy = cp.aberration_surface_cartesian_gradients(alpha, phi, pol)
+        gr, gp, G = grad_polar_np(a_s, p_s, pol)
+        ex = np.cos(p_s) * gr - np.sin(p_s) * gp
+        ey = np.sin(p_s) * gr + np.cos(p_s) * gp
+        ctx.close(max(_rel(dx.reshape(-1)[idxs].double().numpy() - ex, G), _rel(dy.reshape(-1)[idxs].double().numpy() - ey, G)), 3e-5, "cartesian_gradient_vs_series", lambda: "float32 k-grid %r: sampled Cartesian gradient differs" % (gpts,), n_points=n, **f)
+    ctx.nontrivial(("big_grid", spec["family"], r), True)
+    ctx.observe(family=spec["family"], n_points=n, coefs=pol)
+
+
+STATES = ["default_dtype_float64", "no_grad", "inference_mode", "grad_disabled", "deterministic_algorithms", "matmul_precision_medium", "num_threads_3", "numpy_errstate_raise", "config_float64", "numpy_printoptions"]
+
+
+@contextlib.contextmanager
+def _state(ctx, name):
+    """process-global state a user may set, applied around the calls and restored afterwards"""
+    torch = ctx.state["torch"]
+    from quantem.core import config as qconfig
+
+    if name == "default_dtype_float64":
+        old = torch.get_default_dtype()
+        torch.set_default_dtype(torch.float64)
+        try:
+            yield
+        finally:
+            torch.set_default_dtype(old)
+    elif name == "no_grad":
+        with torch.no_grad():
+            yield
+    elif name == "inference_mode":
+        with torch.inference_mode():
+            yield
+    elif name == "grad_disabled":
+        with torch.set_grad_enabled(False):
+            yield
+    elif name == "deterministic_algorithms":
+        old = torch.are_deterministic_algorithms_enabled()
+        torch.use_deterministic_algorithms(True)
+        try:
+            yield
+        finally:
+            torch.use_deterministic_algorithms(old)
+    elif name == "matmul_precision_medium":
+        old = torch.get_float32_matmul_precision()
+        torch.set_float32_matmul_precision("medium")
+        try:
+            yield
+        finally:
+            torch.set_float32_matmul_precision(old)
+    elif name == "num_threads_3":
+        old = torch.get_num_threads()
+        torch.set_num_threads(3)
+        try:
+            yield
+        finally:
+            torch.set_num_threads(old)
+    elif name == "numpy_errstate_raise":
+        with np.errstate(all="raise"):
+            yield
+    elif name == "numpy_printoptions":
+        with np.printoptions(precision=2, suppress=True), contextlib.ExitStack() as es:
+            torch.set_printoptions(precision=2)
+            es.callback(lambda: torch.set_printoptions(profile="default"))
+            yield
+    elif name == "config_float64":
+        keys = ("dtype_real", "dtype_complex", "precision")
+        old = {k: qconfig.get(k) for k in keys}
+        qconfig.set({"dtype_real": "float64", "dtype_complex": "complex128", "precision": "float64"})
+        try:
+            yield
+        finally:
+            qconfig.set(old)
+    else:
+        raise HarnessError(name)
+
+
+def _bundle(ctx, seed):
+    """a fixed bundle of C12 computations (same random inputs for a given seed); returns named float64 arrays"""
+    st = ctx.state
+    torch, cp, du, pm, validators = st["torch"], st["cp"], st["du"], st["pm"], st["validators"]
+    rng = np.random.default_rng([12, 77, seed])
+    out = {}
+    pol = _dense_polar(rng, "physical")
+    lam = _wavelength(rng, "physical")
+    alpha, phi = _points(rng, "physical", 120)
+    A, P = torch.tensor(alpha, dtype=torch.float64), torch.tensor(phi, dtype=torch.float64)
+    out["surface"] = cp.aberration_surface(A, P, lam, pol)
+    out["polar_gradients"] = torch.stack(cp.aberration_surface_polar_gradients(A, P, pol))
+    out["cartesian_gradients"] = torch.stack(cp.aberration_surface_cartesian_gradients(A, P, pol))
+    out["basis"] = cp.aberration_surface_cartesian_basis(A, P, lam, CART)
+    polt = {k: torch.tensor(v, dtype=torch.float64) for k, v in pol.items()}
+    cart = cp.polar_to_cartesian_aberrations(polt)
+    back = cp.cartesian_to_polar_aberrations(cart)
+    out["roundtrip_surface"] = cp.aberration_surface(A, P, lam, back)
+    out["merge_surface"] = cp.aberration_surface(A, P, lam, cp.merge_aberration_coefficients(polt, {"C12_a": torch.tensor(3.0, dtype=torch.float64), "C30": torch.tensor(1e4, dtype=torch.float64)}))
+    d = float(rng.uniform(50, 500))
+    out["standardize_C10"] = torch.tensor(float(cp.standardize_aberration_coefs({"defocus": d, "Cs": 2e5})["C10"]), dtype=torch.float64)
+    out["validate_C10"] = torch.tensor(float(validators.validate_aberration_coefficients({"defocus": d})["C10"]), dtype=torch.float64)
+    out["expected_C10"] = torch.tensor(-d, dtype=torch.float64)
+    model = pm.ProbePixelated.from_params({"energy": 80e3, "semiangle_cutoff": 20.0, "defocus": d, "astigmatism": 30.0, "astigmatism_angle": 0.4}, rng=0)
+    out["probe_C10"] = torch.tensor(float(model.probe_params["aberration_coefs"]["C10"]), dtype=torch.float64)
+    model.set_initial_probe((16, 18), np.array([0.02, 0.02]), 1.0)
+    out["probe"] = torch.view_as_real(model.probe.detach().to(torch.complex128))
+    dp, nbf, gpts, ks = _make_dp(ctx, rng, {"defocus": d}, rotation=0.1, scan=(6, 6))
+    out["dp_C10"] = torch.tensor(float(dp.aberration_coefs["C10"]), dtype=torch.float64)
+    c10 = float(rng.uniform(100, 600))
+    coefs = {"C10": c10, "C12": 0.4 * c10, "phi12": 0.5}
+    sh = dp._return_lateral_shifts(0.6, coefs, dp.bf_mask) if hasattr(dp, "_return_lateral_shifts") else None
+    if sh is not None:
+        out["lateral_shifts"] = sh
+        fit = du.fit_aberrations_from_shifts(sh, dp.bf_mask, dp.wavelength, dp.gpts, dp.sampling)
+        out["fit"] = torch.tensor([fit["C10"] / c10, fit["C12"] / c10, fit["phi12"], fit["rotation_angle"]], dtype=torch.float64)
+        out["fit_truth"] = torch.tensor([1.0, 0.4, 0.5, 0.6], dtype=torch.float64)
+    out["reconstruct"] = dp.reconstruct(override_aberration_coefs={"defocus": 0.5 * d}, deconvolution_kernel="icom", verbose=False).corrected_stack
+    return {k: v.detach().to(torch.float64).clone() for k, v in out.items()}
+
+
+_BUNDLE_TOL = {"probe": 1e-5, "reconstruct": 1e-4, "lateral_shifts": 1e-5, "fit": 1e-4, "standardize_C10": 1e-6}
+
+
+def run_global_state(spec, idx, ctx):
+    st = ctx.state
+    name = spec["state"]
+    seed = spec["rep"]
+    ref = _bundle(ctx, seed)
+    with _state(ctx, name):
+        got = _bundle(ctx, seed)
+    f = {"kind": "global_state", "state": name}
+    for k, r in ref.items():
+        g = got.get(k)
+        sc = float(r.abs().max()) or 1.0
+        ok_shape = g is not None and tuple(g.shape) == tuple(r.shape)
+        ctx.close(float((g - r).abs().max()) / sc if ok_shape else float("inf"), _BUNDLE_TOL.get(k, 1e-12), "global_state_changes_result", lambda: "%s under %s differs from the default-state result" % (k, name), quantity=k, **f)
+    for k in ("standardize_C10", "validate_C10", "probe_C10", "dp_C10"):
+        ctx.close(float((got[k] - got["expected_C10"]).abs()) / float(got["expected_C10"].abs()), 1e-6, "alias_defocus", lambda: "%s under %s: %r, expected %r" % (k, name, float(got[k]), float(got["expected_C10"])), entry=k, **f)
+    if "fit" in got:
+        ctx.close(float((got["fit"] - got["fit_truth"]).abs().max()), 1e-4, "fit_recovers", lambda: "fit under %s: %r" % (name, got["fit"].tolist()), **f)
+    # the state itself is restored
+    torch = st["torch"]
+    ctx.check(torch.get_default_dtype() == torch.float32 and torch.is_grad_enabled() and not torch.is_inference_mode_enabled(), "harness_state_restored", "global state not restored after %s" % name, **f)
+    ctx.nontrivial(("global_state", name, seed), True)
+    ctx.observe(state=name, quantities=sorted(ref))
+
+
+def run_equiv_forms(spec, idx, ctx):
+    """the same coefficient set written in every accepted way (key order, alias names, nested / flat, mapping type, numeric
+    type of the values) means the same thing at every entry point; outputs fed back as inputs are fixed points"""
+    st = ctx.state
+    torch, cp, du, pm, validators, dpm = st["torch"], st["cp"], st["du"], st["pm"], st["validators"], st["dpm"]
+    rng = ctx.rng(idx)
+    user, exp, d = _alias_input(rng, allow_none=False)
+    inv = {v: k for k, v in ALIASES.items()}
+    canonical = dict(sorted({**{k: v for k, v in exp.items() if k != "C10"}}.items()))
+    base_items = [("defocus", d)] + list(canonical.items())
+
+    def spell(items, how):
+        if how == "alias":
+            return [(inv.get(k, k) if k != "defocus" else k, v) for k, v in items]
+        return items
+
+    def vals(items, how):
+        if how == "np":
+            return [(k, np.float64(v)) for k, v in items]
+        if how == "tensor":
+            return [(k, torch.tensor(v, dtype=torch.float64)) for k, v in items]
+        if how == "mixed":
+            kinds = [float, np.float64, lambda v: torch.tensor(v, dtype=torch.float64), lambda v: np.array(v)]
+            return [(k, kinds[j % 4](v)) for j, (k, v) in enumerate(items)]
+        if how == "mixed_surface":  # the surface functions take float | Tensor values (np.float64 is a float); 0-d ndarrays raise on the unchanged tree
+            kinds = [float, np.float64, lambda v: torch.tensor(v, dtype=torch.float64)]
+            return [(k, kinds[j % 3](v)) for j, (k, v) in enumerate(items)]
+        return items
+
+    forms = {}
+    forms["canonical_sorted"] = dict(base_items)
+    forms["reversed"] = dict(reversed(base_items))
+    forms["shuffled"] = dict([base_items[i] for i in rng.permutation(len(base_items))])
+    forms["alias_names"] = dict(spell(base_items, "alias"))
+    forms["alias_reversed"] = dict(reversed(spell(base_items, "alias")))
+    forms["ordered_dict"] = collections.OrderedDict(reversed(base_items))
+    forms["numpy_values"] = dict(vals(base_items, "np"))
+    forms["tensor_values"] = dict(vals(reversed(base_items), "tensor"))
+    forms["mixed_values"] = dict(vals(spell(base_items, "alias"), "mixed"))
+    base = {"energy": 80e3, "semiangle_cutoff": 20.0}
+    entries = {
+        "validate_aberration_coefficients": lambda m: validators.validate_aberration_coefficients(m),
+        "standardize_aberration_coefs": lambda m: {k: float(v) for k, v in cp.standardize_aberration_coefs(m).items()},
+        "ProbePixelated[flat]": lambda m: pm.ProbePixelated.from_params({**base, **m}, rng=0).probe_params["aberration_coefs"],
+        "ProbePixelated[flat_first]": lambda m: pm.ProbePixelated.from_params({**m, **base}, rng=0).probe_params["aberration_coefs"],
+        "ProbePixelated[nested]": lambda m: pm.ProbePixelated.from_params({"aberration_coefs": dict(m), **base}, rng=0).probe_params["aberration_coefs"],
+        "ProbePixelated[split]": lambda m: pm.ProbePixelated.from_params({**base, **{k: v for j, (k, v) in enumerate(m.items()) if j % 2}, "aberration_coefs": {k: v for j, (k, v) in enumerate(m.items()) if not j % 2}}, rng=0).probe_params["aberration_coefs"],
+        "ProbeParametric[flat]": lambda m: pm.ProbeParametric.from_params({**base, **m}, rng=0, max_aberrations_order=2).probe_params["aberration_coefs"],
+        "HyperparameterState(initial)": lambda m: dpm.HyperparameterState(initial_aberrations=m).current_aberrations(),
+        "HyperparameterState(override)": lambda m: {k: v for k, v in dpm.HyperparameterState(initial_aberrations={"C56": 1.0}).current_aberrations(m).items() if k != "C56"},
+    }
+    f = {"kind": "equiv_forms"}
+    want = _nz(exp)
+    for ename, fn in entries.items():
+        tol = 1e-6 if ename.startswith("standardize") else 0.0
+        for fname, m in forms.items():
+            if ename.startswith("ProbeP") and fname == "ordered_dict" and False:
+                continue
+            got = _nz(fn(m))
+            bad = sorted(set(got) ^ set(want)) or [k for k in want if abs(got[k] - want[k]) > tol * abs(want[k])]
+            ctx.check(not bad, "equivalent_forms_disagree", lambda: "%s with the %s form %r gives %r, expected %r (differs at %r)" % (ename, fname, m, got, want, bad), entry=ename, form=fname, **f)
+    # the surface functions read the same mapping in any order / mapping type / value type
+    pol = {k: v for k, v in exp.items()}
+    lam = 0.0251
+    alpha, phi = _points(rng, "physical", 64)
+    ref, S = chi_polar_np(alpha, phi, lam, pol)
+    A, P = _t(ctx, alpha), _t(ctx, phi)
+    pitems = list(pol.items())
+    sforms = {"reversed": dict(reversed(pitems)), "proxy": types.MappingProxyType(dict(pitems)), "ordered": collections.OrderedDict(pitems), "numpy_values": dict(vals(pitems, "np")), "mixed_values": dict(vals(pitems, "mixed_surface")), "with_unrelated_keys": {**dict(pitems), "energy": 80e3, "note": "x"}}
+    for fname, m in sforms.items():
+        chi = cp.aberration_surface(A, P, lam, m)
+        ctx.close(_rel(np.asarray(chi.detach(), dtype=np.float64) - ref, S), TOL, "surface_vs_series", lambda: "aberration_surface with the %s form differs from the series" % fname, form=fname, **f)
+        dk, dphi = cp.aberration_surface_polar_gradients(A, P, m)
+        gr, gp, G = grad_polar_np(alpha, phi, pol)
+        ctx.close(max(_rel(np.asarray(dk.detach()) - gr, G), _rel(np.asarray(dphi.detach()) - gp, G)), TOL, "polar_gradient_vs_series", lambda: "polar gradient with the %s form differs" % fname, form=fname, **f)
+    labs = [CART[i] for i in rng.permutation(len(CART))][:7]
+    b_list = cp.aberration_surface_cartesian_basis(A, P, lam, labs)
+    b_tuple = cp.aberration_surface_cartesian_basis(A, P, lam, tuple(labs))
+    ctx.close(float((b_list - b_tuple).abs().max()), 0.0 + 1e-300, "equivalent_forms_disagree", "basis labels as tuple vs list differ", entry="aberration_surface_cartesian_basis", form="tuple", **f)
+    # outputs fed back as inputs
+    v1 = validators.validate_aberration_coefficients(forms["alias_names"])
+    v2 = validators.validate_aberration_coefficients(dict(v1))
+    ctx.check(_nz(v2) == _nz(v1), "feedback_not_fixed_point", lambda: "validate(validate(x)) = %r, validate(x) = %r" % (v2, v1), entry="validate_aberration_coefficients", **f)
+    s1 = cp.standardize_aberration_coefs(forms["alias_names"])
+    s2 = cp.standardize_aberration_coefs(s1)
+    ctx.check({k: float(v) for k, v in s2.items()} == {k: float(v) for k, v in s1.items()}, "feedback_not_fixed_point", lambda: "standardize(standardize(x)) = %r vs %r" % (s2, s1), entry="standardize_aberration_coefs", **f)
+    p1 = pm.ProbePixelated.from_params({**base, **forms["alias_names"]}, rng=0).probe_params
+    p2 = pm.ProbePixelated.from_params({**base, "aberration_coefs": dict(p1["aberration_coefs"])}, rng=0).probe_params["aberration_coefs"]
+    p3 = pm.ProbePixelated.from_params(copy.deepcopy(p1), rng=0).probe_params["aberration_coefs"]  # a whole probe_params dict fed back
+    ctx.check(_nz(p2) == _nz(p1["aberration_coefs"]) and _nz(p3) == _nz(p1["aberration_coefs"]), "feedback_not_fixed_point", lambda: "probe_params fed back: %r / %r vs %r" % (_nz(p2), _nz(p3), _nz(p1["aberration_coefs"])), entry="ProbePixelated.probe_params", **f)
+    h1 = dpm.HyperparameterState(initial_aberrations=forms["reversed"]).current_aberrations()
+    h2 = dpm.HyperparameterState(initial_aberrations=h1).current_aberrations(h1)
+    ctx.check(_nz(h2) == _nz(h1), "feedback_not_fixed_point", lambda: "HyperparameterState fed its own output: %r vs %r" % (h2, h1), entry="HyperparameterState", **f)
+    polt = {k: torch.tensor(v, dtype=torch.float64) for k, v in pol.items()}
+    cur = polt
+    for _ in range(3):
+        cur = cp.cartesian_to_polar_aberrations(cp.polar_to_cartesian_aberrations(cur))
+    chi = cp.aberration_surface(A, P, lam, cur).detach().numpy()
+    ctx.close(_rel(chi - ref, S), TOL, "polar_cartesian_polar_surface", lambda: "three polar->Cartesian->polar round trips changed the surface", form="repeated", **f)
+    mg = cp.merge_aberration_coefficients(cp.merge_aberration_coefficients(polt, {"C21_b": torch.tensor(40.0, dtype=torch.float64)}), {"C21_b": torch.tensor(-40.0, dtype=torch.float64)})
+    chi = cp.aberration_surface(A, P, lam, mg).detach().numpy()
+    ctx.close(_rel(chi - ref, S + chi_cart_np(alpha, phi, lam, {"C21_b": 40.0})[1]), TOL, "merge_is_sum", lambda: "merge(+d) then merge(-d) does not give back the surface", form="repeated", **f)
+    ctx.nontrivial(("equiv_forms", spec["rep"]), d != 0)
+    ctx.observe(user=forms["alias_names"], expected=want, n_forms=len(forms), n_entries=len(entries))
+
+
 # ---- fit ----------------------------------------------------------------------------------------
 
 
@@ -844,6 +1287,8 @@ def run_fit(spec, idx, ctx):
     rng = ctx.rng(idx)
     dp, nbf, gpts, ks = _make_dp(ctx, rng, {}, rotation=0.0, scan=(4, 4))
     c10 = float(rng.choice([-1.0, 1.0])) * float(10 ** rng.uniform(math.log10(20), 3.3))
+    if rng.random() < 0.3:
+        c10 *= float(10 ** rng.uniform(-4, 4))  # scale family: the fit is judged relative to |C10|
     mode = int(rng.integers(4))
     c12 = 0.0 if mode == 0 else float(rng.uniform(0.02, 0.8)) * abs(c10)
     phi12 = float(rng.uniform(-PI / 2, PI / 2))
@@ -973,7 +1418,7 @@ def run_fit_e2e(spec, idx, ctx):
 
 def run_case(spec, idx, ctx):
     k = spec["kind"]
-    fn = {"names": run_names, "onehot_polar": run_onehot_polar, "onehot_cart": run_onehot_cart, "dense": run_dense, "alias_fn": run_alias_fn, "alias_probe": run_alias_probe, "alias_direct": run_alias_direct, "fit": run_fit, "fit_e2e": run_fit_e2e, "direct_history": run_direct_history, "alias_forms": run_alias_forms}.get(k)
+    fn = {"names": run_names, "onehot_polar": run_onehot_polar, "onehot_cart": run_onehot_cart, "dense": run_dense, "alias_fn": run_alias_fn, "alias_probe": run_alias_probe, "alias_direct": run_alias_direct, "fit": run_fit, "fit_e2e": run_fit_e2e, "layout": run_layout, "big_grid": run_big_grid, "global_state": run_global_state, "equiv_forms": run_equiv_forms, "direct_history": run_direct_history, "alias_forms": run_alias_forms}.get(k)
     if fn is None:
         raise HarnessError("unknown case kind %r" % k)
     with np.errstate(all="ignore"):
